@@ -96,27 +96,31 @@ RC_Lhs(q) ==
         [] q.rule = "clip_clip" -> Map1(RC_X(q), q.dt, LAMBDA v : C2(C1(v)))
 \* the inner node's output must have no other consumer (check_nodes_are_removable)
 RC_Match(q, devs) == ~q.extra
-\* design side-conditions the code does not have
-RC_NegMax(q) == q.rule = "relu_clip" /\ q.hi1 # NONE /\ q.hi1 < 0
-RC_Disjoint(q) == /\ q.rule = "clip_clip" /\ q.lo2 # NONE /\ q.hi1 # NONE /\ q.lo2 > q.hi1
-                  /\ (q.hi2 = NONE \/ q.hi2 > q.hi1)
+\* The three deviations of this family are FIXED in the code (6ac09a3, cc6d6a1); they stay in the model so that a
+\* regression re-introducing the old behaviour is an unexplained violation.  Design = the fixed code:
+\*   Relu(Clip(x, lo, hi))            -> Clip(x, max(0, lo), max(0, hi))                    [relu_clip_negmax: hi unchanged]
+\*   Clip(Clip(x, lo1, hi1), lo2, hi2) -> Clip(x, max(lo1, lo2), min(max(hi1, lo2), hi2))  [clip_clip_disjoint: min(hi1, hi2)]
+\*   the element type comes from the clipped value or, without value_info, from a Clip bound; with neither the rule
+\*   declines                                                                              [relu_clip_no_dtype_raise: raises]
 RC_Check(q, devs) ==
    IF q.rule = "relu_relu" THEN "ok"
    ELSE IF RC_AnyBound(q) /\ q.ckind \in {"ginput", "ginit"} THEN "fail"       \* is_graph_input() / not constant
-   ELSE IF RC_NegMax(q) /\ "relu_clip_negmax" \notin devs THEN "fail"
-   ELSE IF RC_Disjoint(q) /\ "clip_clip_disjoint" \notin devs THEN "fail"
+   \* first_clip_node.inputs[0].dtype is None and there is no bound: only Clip(Relu(x)) has an intermediate there
+   ELSE IF q.rule = "clip_relu" /\ ~q.vi /\ ~RC_AnyBound(q) /\ "relu_clip_no_dtype_raise" \notin devs THEN "fail"
    ELSE "ok"
 Comb(a, b, F(_, _)) == IF a # NONE /\ b # NONE THEN F(a, b) ELSE IF a # NONE THEN a ELSE b
 RC_Rewrite(q, devs) ==
-   \* extract_min_max reads node.inputs[0].dtype of the Clip whose first input is the intermediate
+   \* old extract_min_max: node.inputs[0].dtype.numpy() of the Clip whose first input is the intermediate
    IF q.rule \in {"clip_relu", "clip_clip"} /\ ~q.vi /\ "relu_clip_no_dtype_raise" \in devs THEN Res(RAISE, TRUE)
    ELSE CASE q.rule = "relu_relu" -> Res(Map1(RC_X(q), q.dt, LAMBDA v : Max2(v, 0)), TRUE)
           [] q.rule \in {"clip_relu", "relu_clip"} ->
-                LET lo == Max2(0, IF q.lo1 = NONE THEN 0 ELSE q.lo1) IN
-                Res(Map1(RC_X(q), q.dt, LAMBDA v : ClipV(v, lo, q.hi1)), TRUE)
+                LET lo == Max2(0, IF q.lo1 = NONE THEN 0 ELSE q.lo1)
+                    hi == IF q.rule = "relu_clip" /\ q.hi1 # NONE /\ "relu_clip_negmax" \notin devs THEN Max2(0, q.hi1) ELSE q.hi1
+                IN Res(Map1(RC_X(q), q.dt, LAMBDA v : ClipV(v, lo, hi)), TRUE)
           [] q.rule = "clip_clip" ->
-                LET lo == Comb(q.lo1, q.lo2, Max2) hi == Comb(q.hi1, q.hi2, Min2) IN
-                Res(Map1(RC_X(q), q.dt, LAMBDA v : ClipV(v, lo, hi)), TRUE)
+                LET hi1 == IF q.hi1 # NONE /\ q.lo2 # NONE /\ "clip_clip_disjoint" \notin devs THEN Max2(q.hi1, q.lo2) ELSE q.hi1
+                    lo == Comb(q.lo1, q.lo2, Max2) hi == Comb(hi1, q.hi2, Min2)
+                IN Res(Map1(RC_X(q), q.dt, LAMBDA v : ClipV(v, lo, hi)), TRUE)
 RC_Unknown(q) == q.rule # "relu_relu" /\ RC_AnyBound(q) /\ q.ckind \in {"ginput", "ginit"}
 
 -----------------------------------------------------------------------------
@@ -239,7 +243,7 @@ CC_Unknown(q) == FALSE
 (* scatter_static: _redundant_scatter_nd.py ScatterAllStatic                                      *)
 SC_Params(z) ==
    {[ds |-> ds, dd |-> dd, ud |-> ud, idx |-> ix, red |-> rd] :
-        ds \in {<<3>>, <<3, 2>>}, dd \in {"static", "sym", "unk", "none"}, ud \in {"static", "sym", "sym2", "none"},
+        ds \in {<<3>>, <<3, 2>>}, dd \in {"static", "sym", "unk", "none"}, ud \in {"static", "sym", "sym2", "unk", "none"},
         ix \in {"full", "perm", "short", "ginput", "ginit"}, rd \in {"absent", "none", "add", "mul"}}
 SC_K(q) == IF q.idx = "short" THEN 2 ELSE 3
 SC_Idx(q) == CASE q.idx = "perm" -> <<1, 0, 2>> [] q.idx = "short" -> <<0, 1>> [] OTHER -> <<0, 1, 2>>
@@ -268,7 +272,7 @@ SC_Check(q, devs) ==
    ELSE IF IsSym(dd[1]) THEN (IF "scatter_symbolic_raise" \in devs THEN "raise" ELSE "fail")   \* range(SymbolicDim)
    ELSE IF SC_Idx(q) = [i \in 1..dd[1] |-> i - 1] THEN "ok" ELSE "fail"
 SC_Rewrite(q, devs) == Res(SC_Upd(q), TRUE)
-SC_Unknown(q) == q.dd \in {"unk", "none", "sym"} \/ q.ud \in {"none", "sym", "sym2"} \/ q.idx \in {"ginput", "ginit"}
+SC_Unknown(q) == q.dd \in {"unk", "none", "sym"} \/ q.ud \in {"none", "sym", "sym2", "unk"} \/ q.idx \in {"ginput", "ginit"}
 
 -----------------------------------------------------------------------------
 (* shapes, symbolic declarations *)
@@ -278,6 +282,7 @@ ShapesUpTo(r, D) == UNION {[1..n -> D] : n \in 0..r}
 Sy(shape) == [i \in 1..Len(shape) |-> IF shape[i] <= 1 THEN shape[i] ELSE -(shape[i] - 1)]
 Decl(kind, shape) == CASE kind = "static" -> shape [] kind = "sym" -> Sy(shape) [] kind = "none" -> NOSHP
                        [] kind = "unk" -> [i \in 1..Len(shape) |-> UNK]
+                       [] kind = "unk1" -> [i \in 1..Len(shape) |-> IF i = 1 THEN UNK ELSE shape[i]]
 IsInt(d) == d >= 0
 Last(s) == s[Len(s)]
 RevAt(s, j) == IF j < Len(s) THEN s[Len(s) - j] ELSE 1          \* right-aligned dim j (0 = last), 1 when missing
@@ -435,7 +440,7 @@ MR_Unknown(q) == ~q.ovi \/ Cardinality({i \in 1..Len(q.mask) : q.mask[i]}) > 1
 BIGEND == 1000000         \* stands for INT64_MAX
 CS_AllParams(z) ==
    {[rule |-> r, ds |-> ds, decl |-> dc, st |-> st, en |-> en, ax |-> ax, sp |-> sp, ckind |-> "init", ovi |-> ov] :
-        r \in {"r1", "r2"}, ds \in (IF Big THEN {<<3>>, <<2, 3>>, <<0, 2>>} ELSE {<<3>>, <<2, 3>>}), dc \in {"static", "sym", "none"},
+        r \in {"r1", "r2"}, ds \in (IF Big THEN {<<3>>, <<2, 3>>, <<0, 2>>} ELSE {<<3>>, <<2, 3>>}), dc \in {"static", "sym", "unk", "unk1", "none"},
         st \in (IF Big THEN {0, 1, -1} ELSE {0, 1}), en \in (IF Big THEN {-1, 1, 2, 3, 4, BIGEND} ELSE {2, 3, 4, BIGEND}),
         ax \in -2..1, sp \in (IF Big THEN {1, 2, -1} ELSE {1, -1}), ov \in BOOLEAN}
    \cup {[rule |-> r, ds |-> <<2, 3>>, decl |-> dc, st |-> 0, en |-> en, ax |-> ax, sp |-> 1, ckind |-> k, ovi |-> TRUE] :
